@@ -43,6 +43,33 @@ def leaf_explanations_all_empty(text):
     return True
 
 
+CYCLE = "leaf-report-misses-change-of-type-in-a-cycle"
+
+
+def changed_type_in_cycle_missing(case, m, iface, leaf_text):
+    """The leaf report has no block at all for a changed struct / class that sits in a cycle of types (struct st1 holds class
+    cl0 by value, cl0 points back to st1), so the interfaces that reach it are not named.  Recognised from the model: the
+    missing interface reaches a mutated aggregate that reaches itself, and the leaf report does not show that type as changed."""
+    f = next((i for k, i in M.interfaces(m) if i["name"] == iface), None)
+    idx = M.type_index(m)
+    if f is None:
+        # a member function: its class
+        cls = [t["name"] for t in m["types"] if any(me["name"] == iface or iface.endswith("::" + me["name"]) for me in t.get("methods", []))]
+        reach = M.reach_from_names(m, cls)
+    else:
+        reach = M.iface_reach(m, f)
+    for info in case["infos"]:
+        tn = info.get("type")
+        if not tn or tn not in reach or tn not in idx or idx[tn]["kind"] not in ("struct", "class", "union"):
+            continue
+        if tn not in M.reach_from_names(m, M.direct_deps(idx[tn])):
+            continue
+        cname = idx[tn].get("cname", tn)
+        if not re.search(r"'(?:struct|class|union) %s(?: at [^']*)?' changed:" % re.escape(cname), leaf_text):
+            return True
+    return False
+
+
 def same_named_private_types_merged(m, m2, iface, leaf_text):
     """The leaf report keys changed types by name: of two *different* types of the same name (one per translation unit) that
     both changed it shows one, so the interfaces of the other are missing.  Recognised from the model: the missing interface
@@ -164,6 +191,9 @@ def run_case(case, cx):
                 return
             if same_named_private_types_merged(m, m2, hit, ltxt):
                 cx.violation(MERGED, dict(det, interface=hit))
+                return
+            if changed_type_in_cycle_missing(case, m, hit, ltxt):
+                cx.violation(CYCLE, dict(det, interface=hit))
                 return
             cx.violation("changed-interface-missing-from-leaf-report", dict(det, interface=hit))
             return
